@@ -200,6 +200,9 @@ VARIANTS = [
     # ---------------- R-QRANGE (C18, C19)
     V("quantile levels no longer bounded", ("C18", "C19"), "R-QRANGE", "core.py", '            if not ((qs >= 0) & (qs <= 1)).all():\n                raise ValueError("Quantiles must be in the range [0, 1]")\n', '', must_mention="quantile"),
     V("quantile levels bounded above only", ("C18", "C19"), "R-QRANGE", "core.py", '            if not ((qs >= 0) & (qs <= 1)).all():', '            if not (qs <= 1).all():', must_mention="below"),
+    # ---------------- R-EMPTYKERNEL (C10, C19), R-DTYPENORM (C19)
+    V("ffill kernel without the empty-axis guard", ("C10", "C19"), "R-EMPTYKERNEL", "aggregate_flox.py", '    if array.shape[axis] == 0:\n        # nothing to fill (a zero-length chunk)\n        return array\n', '', must_mention="ffill"),
+    V("scan entry point stores the raw dtype", ("C19",), "R-DTYPENORM", "core.py", '    if dtype is not None:\n        dtype = np.dtype(dtype)\n    if agg.name in ["cumsum", "nancumsum"]', '    if agg.name in ["cumsum", "nancumsum"]', must_mention="groupby_scan"),
     # ---------------- R-LOOPSTORE (C09, C19)
     V("cohort map overwrites a repeated block set", ("C09", "C19"), "R-LOOPSTORE", "core.py", '        merged_cohorts[chunk] = sorted(merged_cohorts.get(chunk, []) + cohort)', '        merged_cohorts[chunk] = cohort', must_mention="merged_cohorts"),
     V("twin: cohort map merges under an explicit membership test", ("C09", "C19", "C02"), "", "core.py", '        merged_cohorts[chunk] = sorted(merged_cohorts.get(chunk, []) + cohort)',
